@@ -197,6 +197,9 @@ def run_async(desc, tier, seed, res):
 
     out, stalled = sim.run(main)
     try:
+        if simlib.detached(out):
+            res.inconclusive.append('harness detached: ' + str(out))
+            return
         if stalled or out is not True:
             res.inconclusive.append(f"C18 {driver}: simulation ended with {'a stall' if stalled else repr(out)}")
             return
